@@ -430,6 +430,10 @@ class Gen:
                 return None
             v = rng.choice(self.containers)
             cur = self.measure(self.impl.env[v], b)
+            if 0 < cur and abs(cur * rel - cur) < 5e-9:
+                # the library decides on the shortfall rounded to ten decimals of the BASE unit (L, g, mol): a difference of picolitres
+                # is below what it resolves (either answer is within its documented precision); not generated
+                return None
             base = cur * rel if cur > 0 else {'L': 0.002, 'g': 2.0, 'mol': 0.05}[b]
             op = {'op': 'fill', 't': {'c': v}, 'solvent': solvent['id'], 'q': pick_qty(rng, base, b, sig=sig), 'out': self.fresh()}
             o = self.emit(op, 'fill:' + b)
